@@ -450,7 +450,10 @@ def json_case(rng, tables):
         t = line.split()
         if t[0] in ("P", "A", "B") and t[1] == "0":
             ops.append(" ".join([t[0], "1"] + t[2:]))
-    return Case("json-twins", ops, {"twins": True})
+    meta = {"twins": True}
+    if "packets" in c.meta:
+        meta["packets"] = c.meta["packets"]
+    return Case("json-twins", ops, meta)
 
 
 class C16(Prop):
@@ -468,10 +471,12 @@ class C16(Prop):
             "packet; distinct by hash")
 
     def cases(self, rng, tables, n, tier):
-        return [json_case(rng, tables) for _ in range(n)]
+        return [gen.many_templates_case()] + [json_case(rng, tables) for _ in range(n)]
 
     def oracle(self, case, obs, crash, tables):
-        return oracle.c01(case, obs, crash) + oracle.c16(case, obs, crash)
+        # faithfulness: the values in the JSON are compared with an independent decode of the bytes
+        ref = [(c, m) for c, m in oracle.c04(case, obs, crash, tables) + oracle.c05(case, obs, crash, tables) if c is None]
+        return oracle.c01(case, obs, crash) + oracle.c16(case, obs, crash) + ref
 
 
 def cache_case(rng, tables):
@@ -518,7 +523,7 @@ class C06(Prop):
             "distinct by hash")
 
     def cases(self, rng, tables, n, tier):
-        out = []
+        out = [gen.many_templates_case(twins=False)]
         for i in range(n):
             if i % 3 == 0:
                 # fully conformant streams over 2-3 parsers sharing template ids with different
@@ -768,7 +773,7 @@ class C10(C09):
             "sets per message; non-trivial = a message with at least one data value re-exported; distinct by hash")
 
     def cases(self, rng, tables, n, tier):
-        return [export_case(rng, tables, 10) for _ in range(n)]
+        return [multi_template_case(rng, tables) for _ in range(5)] + [export_case(rng, tables, 10) for _ in range(n)]
 
     def oracle(self, case, obs, crash, tables):
         return oracle.c01(case, obs, crash) + oracle.c10(case, obs, crash, tables)
